@@ -188,6 +188,28 @@ func (r *tcpResponder) received() int {
 // helpers
 // ---------------------------------------------------------------------------------------------
 
+// getCard: GetCardByID under a watchdog. A call that has not returned after 15 timeouts never will (the
+// property bounds it by one): the case is reported as "hung" instead of blocking the whole stream.
+var errHung = fmt.Errorf("hung: the call did not return within 15 timeouts")
+
+func getCard(u uhppote.IUHPPOTE, serial, card uint32) (*types.Card, error) {
+	type res struct {
+		c   *types.Card
+		err error
+	}
+	ch := make(chan res, 1)
+	go func() {
+		c, err := u.GetCardByID(serial, card)
+		ch <- res{c, err}
+	}()
+	select {
+	case r := <-ch:
+		return r.c, r.err
+	case <-time.After(15 * T):
+		return nil, errHung
+	}
+}
+
 // cardReply: a GetCardByID reply from controller `serial` for `card`
 func cardReply(serial, card uint32) []byte {
 	reply := messages.GetCardByIDResponse{SerialNumber: types.SerialNumber(serial), CardNumber: card,
@@ -238,13 +260,18 @@ func datagram(r *rng.R, class string, serial, card uint32) []byte {
 }
 
 type clientCfg struct {
-	path string // broadcast | udp | tcp
-	bind int    // 0 or a fixed port
+	path   string // broadcast | udp | tcp
+	bind   int    // 0 or a fixed port
+	bindIP string // "" = 127.0.0.1
 }
 
 func newRealClient(cfg clientCfg, serial uint32, endpoint string) uhppote.IUHPPOTE {
 	ap := netip.MustParseAddrPort(endpoint)
-	bind := types.BindAddrFrom(netip.MustParseAddr("127.0.0.1"), uint16(cfg.bind))
+	bindIP := cfg.bindIP
+	if bindIP == "" {
+		bindIP = "127.0.0.1"
+	}
+	bind := types.BindAddrFrom(netip.MustParseAddr(bindIP), uint16(cfg.bind))
 	listen := types.ListenAddrFrom(netip.MustParseAddr("127.0.0.1"), 60001)
 	var broadcast types.BroadcastAddr
 	devices := []uhppote.Device{}
